@@ -1,4 +1,4 @@
-PROPS = ["CTV.Props.C01"]
+PROPS = ["CTV.Props.C01", "CTV.Props.C01Tie"]
 HARNESS = [dict(pkg="./trillian/ctfe/", test="TestVerifC01", timeout=900)]
 RULE = ("histories of add-chain / add-pre-chain requests through the real HTTP handlers of a logInfo with a de-duplicating fake backend, a per-request clock "
         "(epoch, sub-millisecond, 2038, 2262 maximum, random) and a digest-recording signer; PKIs from crypto/x509.CreateCertificate (RSA-2048 / P-256 / P-384 leaf and "
